@@ -28,6 +28,10 @@ def main():
             from .check_c12 import run
 
             sys.exit(run(a.tier))
+        if prop == "C03":
+            from .check_c03 import run
+
+            sys.exit(run(a.tier))
         if prop == "C13":
             from .check_c13 import run
 
